@@ -255,6 +255,11 @@ class FakeWalFile:
                 for key in set(a) | set(c):
                     if key == 'event_result_type':
                         continue
+                    if key == 'event_path':
+                        # the line was serialised before the write suspended; the event may have been dispatched on since
+                        if a.get(key) != (c.get(key) or [])[:len(a.get(key) or [])]:
+                            ok, why = False, f'field {key}'
+                        continue
                     if a.get(key) != c.get(key):
                         ok, why = False, f'field {key}'
             if not line.endswith('\n') or '\n' in line[:-1]:
